@@ -14,6 +14,23 @@ REPO = os.environ.get("CIW_REPO", "/repo")
 KNOWN_NAMES = set()      # class / method / function names of the analysed package (never alpha-renamed in finding keys)
 
 
+def clone(node):
+    """structural copy of an AST (fields and positions only): the annotations this package hangs on nodes (_parent, _module, ...) point back into the whole
+    module, so copy.deepcopy of an annotated node would copy the world"""
+    if isinstance(node, list):
+        return [clone(x) for x in node]
+    if not isinstance(node, ast.AST):
+        return node
+    new = type(node)()
+    for f in node._fields:
+        if hasattr(node, f):
+            setattr(new, f, clone(getattr(node, f)))
+    for a in ("lineno", "col_offset", "end_lineno", "end_col_offset"):
+        if hasattr(node, a):
+            setattr(new, a, getattr(node, a))
+    return new
+
+
 class AnalysisError(Exception):
     """Raised when an anchor is missing / an idiom is not recognised.  Exit code 2, never a VIOLATION."""
 
@@ -22,10 +39,8 @@ class Module:
     def __init__(self, name, path, rel, src):
         self.name, self.path, self.rel, self.src = name, path, rel, src
         self.tree = ast.parse(src, filename=path)
-        from .desugar import desugar_function
-        for n in list(ast.walk(self.tree)):
-            if isinstance(n, ast.FunctionDef):
-                desugar_function(n)
+
+    def annotate(self):
         for n in ast.walk(self.tree):
             for c in ast.iter_child_nodes(n):
                 c._parent = n
@@ -99,6 +114,11 @@ class Program:
                     st._cls = None
         self._mro = {}
         self._views = {}
+        # normal forms (sa/desugar.py): class-level constants, getattr(self, "name"), specialised private helpers, interchangeable idioms
+        from . import desugar
+        desugar.normalise_program(self)
+        for m in self.modules.values():
+            m.annotate()
         for ci in self.classes.values():
             KNOWN_NAMES.add(ci.name)
             KNOWN_NAMES.update(ci.methods)
